@@ -586,7 +586,9 @@ Definition obs_decode (st : status) : tr :=
                            end)) all_kinds);
       obs_res obs_embedded r].
 
-(* a status is written to a header map, read back, and its details are decoded *)
+(* a status is written to a header map, read back, and its details are decoded; the metadata that
+   arrives with it (the user metadata given to with_error_details*_and_metadata, minus the reserved
+   names) is part of the observable *)
 Definition obs_via_headers (r : res status) : tr :=
   match r with
   | Ok st =>
@@ -598,7 +600,7 @@ Definition obs_via_headers (r : res status) : tr :=
           | Some st' =>
               let raw := obs_bytes (st_details st) in
               Nd [Nn 0; raw; Nn (st_code st'); obs_bytes (st_msg st');
-                  same_or raw (obs_bytes (st_details st')); obs_decode st']
+                  same_or raw (obs_bytes (st_details st')); hm_canon (st_md st'); obs_decode st']
           end
       end
   | Err => Nd [Nn 3]
